@@ -302,6 +302,198 @@ def correspondence(ctx, E, H):
                       {"mismatches": ["%s %s" % m for m in mism[:20]]}, found_input=False)
 
 
+# --------------------------------------------------------------------------------------
+# evaluation layer: Get_N_pg ... Get_dN_e_pg, Hermitian *_pg / *_e_pg (layouts, Gauss points,
+# inverse Jacobian, scaling of the slope functions by the element length)
+# --------------------------------------------------------------------------------------
+def _finv(M):
+    """exact inverse of a small Fraction matrix"""
+    n = len(M)
+    A = [list(map(F, r)) + [F(int(i == j)) for j in range(n)] for i, r in enumerate(M)]
+    for c in range(n):
+        piv = next(r for r in range(c, n) if A[r][c] != 0)
+        A[c], A[piv] = A[piv], A[c]
+        A[c] = [x / A[c][c] for x in A[c]]
+        for r in range(n):
+            if r != c and A[r][c] != 0:
+                A[r] = [x - A[r][c] * y for x, y in zip(A[r], A[c])]
+    return [r[n:] for r in A]
+
+
+REPLAY_EVAL = r'''
+import json, os, subprocess, sys
+req = json.loads(%(req)r)
+items = json.loads(%(items)r)
+p = subprocess.run([sys.executable, %(script)r], input=json.dumps(req), capture_output=True, text=True, env=os.environ)
+if p.returncode != 0:
+    print(p.stderr[-800:]); sys.exit(1)
+out = json.loads(p.stdout)
+bad = 0
+for nav, exp, scale in items:
+    v = out
+    ab = False
+    try:
+        for k in nav:
+            if k == "abs":
+                ab = True
+            else:
+                v = v[k]
+    except Exception as ex:
+        print(nav, "not available:", ex); bad += 1; continue
+    if ab:
+        v = abs(v)
+    ok = abs(v - exp) <= 1e-10 * max(1.0, abs(exp), scale)
+    print(nav, "implementation", v, "exact", exp, "OK" if ok else "DIFFERS")
+    bad += (not ok)
+sys.exit(1 if bad else 0)
+'''
+
+
+def eval_layer(ctx, E, H):
+    rng = ctx.rng
+    maps, fr = {}, {}
+    for name, r in E.items():
+        dim = r["dim"]
+        while True:
+            A = [[F(rng.randint(-6, 6), 4) for _ in range(dim)] for _ in range(dim)]
+            if name.startswith(("QUAD", "HEXA", "PRISM", "SEG")) or rng.random() < 0.5:
+                # also exercise pure scalings (where the code's convention for second derivatives applies)
+                pass
+            det = None
+            try:
+                Ai = _finv(A)
+            except StopIteration:
+                continue
+            break
+        b = [F(rng.randint(-8, 8), 2) for _ in range(dim)]
+        maps[name] = {"A": [[float(x) for x in row] for row in A], "b": [float(x) for x in b]}
+        fr[name] = (A, Ai, b)
+    herm = {}
+    for name in H:
+        a = F(rng.randint(-8, 8), 4)
+        L = F(rng.randint(1, 12), 4)
+        herm[name] = [float(a), float(a + L)]
+        fr[name] = (a, L)
+    rc, out, err = ctx.impl_python(os.path.join(common.VERIF, "corr", "impl_eval.py"),
+                                   input=json.dumps({"maps": maps, "herm": herm}), timeout=600)
+    if rc != 0:
+        ctx.obligation("corr:evaluation-layer", False, err[-1200:])
+        ctx.violation("corr:eval-impl-crash", "implementation-side evaluation of the tables failed: " + ((err.strip().splitlines() or ["?"])[-1][:200]),
+                      {"stderr": err[-3000:]}, found_input=False)
+        return
+    impl = json.loads(out)
+    bad = {}
+    n = 0
+
+    def cmp(key, got, exp, scale=1.0, nav=None):
+        nonlocal n
+        n += 1
+        if got is None or abs(got - float(exp)) > 1e-10 * max(1.0, abs(float(exp)), scale):
+            bad.setdefault(key, []).append((got, str(exp), nav, float(exp), scale))
+
+    names = ["_N", "_dN", "_ddN", "_dddN", "_ddddN"]
+    getters = ["N_pg", "dN_pg", "ddN_pg", "dddN_pg", "ddddN_pg"]
+    for name, r in E.items():
+        dim, nPe = r["dim"], r["nPe"]
+        A, Ai, b = fr[name]
+        for mt, d in impl["lagrange"][name].items():
+            pts = [[F(int(x[0]), int(x[1])) for x in p] for p in d["gauss"]]
+            for t, gname in zip(names, getters):
+                got = d[gname]
+                tab = r["tables"][t]
+                if "raises" in got or tab is None:
+                    if not ("raises" in got and tab is None):
+                        bad.setdefault("%s:%s:%s:raises" % (name, mt, gname), []).append((str(got)[:80], "table" if tab else "raises"))
+                    continue
+                v = got["v"]
+                ncol = len(tab[0])
+                for p, pt in enumerate(pts):
+                    for c in range(ncol):
+                        for i in range(nPe):
+                            try:
+                                g_ = v[p][c][i]
+                            except (IndexError, TypeError):
+                                g_ = None
+                            cmp("%s:%s:%s" % (name, mt, gname), g_, pyexpr.ev(tab[i][c], pt), nav=["lagrange", name, mt, gname, "v", p, c, i])
+            # block-diagonal repetition
+            for rep in (2, 3):
+                got = d["N_pg_rep%d" % rep]
+                if "v" in got:
+                    v = got["v"]
+                    for p, pt in enumerate(pts):
+                        for rr in range(rep):
+                            for col in range(rep * nPe):
+                                exp = pyexpr.ev(r["tables"]["_N"][col // rep][0], pt) if col % rep == rr else F(0)
+                                try:
+                                    g_ = v[p][rr][col]
+                                except (IndexError, TypeError):
+                                    g_ = None
+                                cmp("%s:%s:N_pg_rep%d" % (name, mt, rep), g_, exp, nav=["lagrange", name, mt, "N_pg_rep%d" % rep, "v", p, rr, col])
+                else:
+                    bad.setdefault("%s:%s:N_pg_rep%d:raises" % (name, mt, rep), []).append((got.get("raises"), "array"))
+            # physical gradients on the affine image x = xi A + b : grad_x N_i = A^-1 grad_xi N_i
+            got = d["dN_e_pg"]
+            if "v" in got:
+                v = got["v"][0]
+                for p, pt in enumerate(pts):
+                    gxi = [[pyexpr.ev(r["tables"]["_dN"][i][c], pt) for i in range(nPe)] for c in range(dim)]
+                    for k in range(dim):
+                        for i in range(nPe):
+                            exp = sum(Ai[k][c] * gxi[c][i] for c in range(dim))
+                            try:
+                                g_ = v[p][k][i]
+                            except (IndexError, TypeError):
+                                g_ = None
+                            cmp("%s:%s:dN_e_pg" % (name, mt), g_, exp, scale=max(abs(float(x)) for row in Ai for x in row), nav=["lagrange", name, mt, "dN_e_pg", "v", 0, p, k, i])
+            else:
+                bad.setdefault("%s:%s:dN_e_pg:raises" % (name, mt), []).append((got.get("raises"), "array"))
+            # jacobian = |det A| at every point ; weighted jacobian = w_p |det A|
+            detA = A[0][0] if dim == 1 else (A[0][0] * A[1][1] - A[0][1] * A[1][0] if dim == 2 else
+                    sum(A[0][i] * (A[1][(i + 1) % 3] * A[2][(i + 2) % 3] - A[1][(i + 2) % 3] * A[2][(i + 1) % 3]) for i in range(3)))
+            gj = d["jacobian_e_pg"]
+            gw = d["wJ_e_pg"]
+            ws = [F(int(x[0]), int(x[1])) for x in d["weights"]]
+            if "v" in gj and "v" in gw:
+                for p in range(len(pts)):
+                    cmp("%s:%s:jacobian" % (name, mt), abs(gj["v"][0][p]), abs(detA), nav=["lagrange", name, mt, "jacobian_e_pg", "v", 0, p, "abs"])
+                    cmp("%s:%s:weightedJacobian" % (name, mt), gw["v"][0][p], ws[p] * abs(detA), nav=["lagrange", name, mt, "wJ_e_pg", "v", 0, p])
+        ctx.note_case("eval:" + name)
+    for name, r in H.items():
+        a, L = fr[name]
+        d = impl["hermite"][name]
+        pts = [F(int(p[0][0]), int(p[0][1])) for p in d["gauss"]]
+        for k, t in enumerate(["N", "dN", "ddN", "dddN"]):
+            tab = r["tables"]["_Hermitian_" + t]
+            for form in ("pg", "e_pg"):
+                got = d["%s_%s" % (t, form)]
+                if "v" not in got:
+                    bad.setdefault("%s:%s_%s:raises" % (name, t, form), []).append((got.get("raises"), "array"))
+                    continue
+                v = got["v"] if form == "pg" else got["v"][0]
+                for p, pt in enumerate(pts):
+                    for f_, tree in enumerate(tab):
+                        exp = pyexpr.ev(tree, [pt])
+                        if form == "e_pg":
+                            exp = exp * (F(2) / L) ** k * (L if f_ % 2 == 1 else 1)
+                        try:
+                            g_ = v[p][0][f_]
+                        except (IndexError, TypeError):
+                            g_ = None
+                        cmp("%s:Hermitian_%s_%s" % (name, t, form), g_, exp, scale=float((F(2) / L) ** k * max(L, 1)),
+                            nav=["hermite", name, "%s_%s" % (t, form), "v"] + ([p, 0, f_] if form == "pg" else [0, p, 0, f_]))
+        ctx.note_case("eval:" + name)
+    ctx.cov["eval_layer_values_compared"] = n
+    ctx.obligation("corr:evaluation-layer (Get_*_pg layouts, dN_e_pg on affine images, Hermitian *_e_pg scaling)", not bad,
+                   "; ".join("%s %s" % (k, v[0]) for k, v in list(bad.items())[:4]))
+    for key, v in list(bad.items())[:12]:
+        ctx.violation("eval:" + key, "evaluation layer %s: implementation %r, exact value from the translated table %s (%d entries differ)" % (key, v[0][0], v[0][1], len(v)),
+                      {"key": key, "first": [x[:2] for x in v[:3]], "maps": maps.get(key.split(":")[0]), "herm": herm.get(key.split(":")[0]),
+                       "replay_py": REPLAY_EVAL % dict(req=json.dumps({"maps": {k_: m_ for k_, m_ in maps.items() if k_ == key.split(":")[0]},
+                                                                      "herm": {k_: m_ for k_, m_ in herm.items() if k_ == key.split(":")[0]}}),
+                                                       items=json.dumps([[x[2], x[3], x[4]] for x in v[:20] if x[2] is not None]),
+                                                       script=os.path.join(common.VERIF, "corr", "impl_eval.py"))}, True)
+
+
 def run(ctx):
     ctx.assumptions += [
         "translator/elems.py, translator/hermite.py map the accepted Python expression grammar to PExpr Q faithfully (checked against the live lambdas at random dyadic points on every run)",
@@ -349,6 +541,7 @@ def run(ctx):
             ctx.violation("proof-broken:" + str(bad.failed_file), "theorem file %s no longer checks and no failing point was found" % bad.failed_file,
                           {"obligation": bad.failed_file, "log": bad.log[-3000:]}, found_input=False)
     correspondence(ctx, E, H)
+    eval_layer(ctx, E, H)
     if ctx.tier == "thorough" and proof_ok:
         ctx.coqchk(["C06_lagrange", "C06_hermite"] + [x[:-2] for x in extra + hextra])
     if ctx.tier == "thorough":
